@@ -384,6 +384,12 @@ impl Recorder {
             }
         }
     }
+    /// removes and returns the retained violations of the unknown groups (used to re-label a nested run)
+    pub fn take_all(&self) -> Vec<Violation> {
+        let mut g = self.inner.lock().unwrap();
+        g.order.clear();
+        std::mem::take(&mut g.unknown).into_values().flat_map(|gr| gr.first).collect()
+    }
     pub fn unknown_count(&self) -> u64 {
         self.inner.lock().unwrap().unknown.values().map(|g| g.count).sum()
     }
